@@ -394,6 +394,11 @@ def setup(ctx):
 def run(ctx):
     setup(ctx)
     judge = Judge(ctx)
+    # corpus first: the minimal witnesses of every listed finding (a fix that regresses shows up at once)
+    corpus = [{"ops": e["witness"]["ops"] + G.BATTERY[-2:], "check_from": 0, "shape": "corpus:" + e["id"]}
+              for e in list(ctx.fixed.values()) + list(ctx.known.values())
+              if e.get("witness", {}).get("ops") and e["witness"]["ops"][0] != "BASE"]
+    evaluate(ctx, corpus, judge)
     arity_stratum(ctx)
     ctx.exhaustive = True
     thorough = ctx.tier == "thorough"
@@ -414,7 +419,7 @@ def run(ctx):
             evaluate(ctx, extra[i:i + 400], judge)
             if ctx.violations:
                 break
-    tri = list(G.triples()) if widen else list(G.triples(ctx.rng, 2500))
+    tri = list(G.triples()) if widen else list(G.triples(ctx.rng, 1500))
     for i in range(0, len(tri), 400):
         evaluate(ctx, tri[i:i + 400], judge)
         if len(ctx.violations) > 10 or (ctx.violations and not thorough):
